@@ -120,6 +120,18 @@ def compare_texts(a_text, b_text, ties=frozenset(), demand="L2", check_stems=Tru
         return None
     A = a_text if isinstance(a_text, Evidence) else Evidence(a_text)
     B = b_text if isinstance(b_text, Evidence) else Evidence(b_text)
+    first = _compare(A, B, ties, demand, check_stems, contradiction_check)
+    if first is None or B.n_perms == 1:
+        return first
+    # same-label shapes that the reader could only number by guessing: a difference counts only if it is there under
+    # every numbering of one side
+    for perm in range(1, B.n_perms):
+        if _compare(A, Evidence(B.text, perm), ties, demand, check_stems, contradiction_check) is None:
+            return None
+    return first
+
+
+def _compare(A, B, ties, demand, check_stems, contradiction_check):
     if not (A.doc.ok and B.doc.ok):
         # fallback: multiset of normalised lines; only untied precision is lost
         if A.normalised_lines() != B.normalised_lines() and ties != ALL_TIED and not ties:
